@@ -118,7 +118,13 @@ def docs(draw, allow_unencoded=True, allow_nonobject_meta=False,
     enc_stack = [main_enc]
 
     def blanks():
-        return draw(st.sampled_from([0, 0, 0, 1, 2]))
+        n = draw(st.sampled_from([0, 0, 0, 0, 1, 1, 2, 3]))
+
+        if n == 3:
+            # a run longer than the reader's read-ahead block
+            n = draw(st.sampled_from([47, 48, 49, 95, 96, 97, 200]))
+
+        return n
 
     def order():
         return draw(st.integers(0, 10 ** 6))
@@ -144,6 +150,9 @@ def docs(draw, allow_unencoded=True, allow_nonobject_meta=False,
             'lines': lines, 'kind': kind, 'declare_le': declared,
             'indent': indent,
             'blank_unindented': draw(st.booleans()),
+            'under_indent': draw(st.sampled_from(
+                [None, None, None, [0], [None, 0], [1, None, None],
+                 [None, None, 2], [0, 0, 0]])),
             'mimetype': draw(st.sampled_from([None, None, 'text/plain',
                                               'text/markdown'])),
             'blank_before': blanks(), 'order': order(),
@@ -330,6 +339,12 @@ def render(doc):
                     # encodable and no code unit can look like a newline
                     style = 'canonical'
 
+                if style == 'nonascii':
+                    try:
+                        json_text(s['value'], style).encode('utf-8')
+                    except UnicodeError:      # lone surrogates
+                        style = 'canonical'
+
                 if d == 'bad-json':
                     text = '{"a" 1}'
                 else:
@@ -368,15 +383,36 @@ def render(doc):
 
                 if ind:
                     new = []
+                    under = s.get('under_indent') or []
 
-                    for ln in spec.split_keep(data, nl):
+                    for li, ln in enumerate(spec.split_keep(data, nl)):
                         if s.get('blank_unindented') and ln == nl:
                             new.append(ln)
                             r.freedoms.add('blank-line-unindented')
+                        elif under and under[li % len(under)] is not None \
+                                and under[li % len(under)] < ind \
+                                and ln[:1] != b' ':
+                            # a line with fewer spaces than declared: the
+                            # reader strips what is there
+                            new.append(b' ' * under[li % len(under)] + ln)
+                            r.freedoms.add('under-indented-line')
                         else:
                             new.append(b' ' * ind + ln)
 
                     body = b''.join(new)
+                    # the specification's reading: up to `ind` leading
+                    # spaces are removed from every line
+                    stripped = []
+
+                    for ln in spec.split_keep(body, nl):
+                        k = 0
+
+                        while k < ind and ln[k:k + 1] == b' ':
+                            k += 1
+
+                        stripped.append(ln[k:])
+
+                    data = b''.join(stripped)
                 else:
                     body = data
 
